@@ -33,6 +33,13 @@ CLAIMED["C01"] = ("DESIGN.md §4 C01",
     "self-delimiting when kept open; nothing after the body; no read-ahead discarded; segmentation-proof reads; threaded and tokio loops agree. "
     "Known findings: OPTIONS arm skips the fix-up, per-request BufReader, CRLF after body.")
 
+CLAIMED["C04"] = ("DESIGN.md §4 C04",
+    "R-CALLS (first-match idiom, order-changing adaptor denylist, append-only registration), R-FLOW (pattern/text argument roles through closure upvars), R-DOM / R-MUSTPASS (precedence on the result), R-SIBLING over the four lookup functions",
+    "Decides on get_handler and call_websocket_handler of both runtimes: every selection is a first match over the registration-ordered vector; "
+    "wildcard_match / route_matches receive pattern and text in the right roles (path without query, Host header); the host sub-app's handler is used "
+    "only when Host, host pattern and route matched, the default only after one of them failed, None/404 only after the default failed; registration only "
+    "appends; the four siblings agree. The matcher's own semantics (C05) are not decided.")
+
 NOT_YET = {}
 
 NOT_APPLICABLE = {
